@@ -268,6 +268,94 @@ Section EdgeQueryProofs.
     destruct (qstep_good _ _ _ o Hg) as (q2 & H2 & _).
     destruct (fresh_answer_is_fresh (cur_index ix h) (user_opts u h) o) as (q3 & H3). eauto.
   Qed.
+
+  (** ** two query objects sharing one options value *)
+
+  (** a query call never writes a heap cell that existed before the call: everything it writes
+      is freshly allocated, hence unreachable from any other query object *)
+  Lemma qstep_no_shared_write q ix u o : good q ix u -> is_query_op o = true ->
+    exists q', qstep_new q o = Ok (q', fresh_answer ix u o) /\ good q' ix u /\
+               length (eheap q) <= length (eheap q') /\
+               (forall k, k < length (eheap q) -> hget dflt k (eheap q') = hget dflt k (eheap q)).
+  Proof.
+    intros [Hc Hup He Hu] Hq. destruct o as [s|t|t|t l|t l|t l| |ix']; try discriminate;
+      cbn [Lazy.qstep_new Lazy.qstep Lazy.fresh_answer].
+    - rewrite He. destruct (fes_spec q ix t (uptr q) Hc) as (H1 & H2 & H3 & H4 & H5). cbn zeta in *.
+      rewrite Hu in H5.
+      eexists. split; [rewrite H5; reflexivity|]. split.
+      + constructor; [exact H1|rewrite H2, H3; exact Hup|rewrite H4, H3; reflexivity|rewrite H2, H3; exact Hu].
+      + rewrite H2. split; [lia|auto].
+    - rewrite He. pose proof (fe_spec q ix t (uptr q) Hc Hup) as Hf. cbn zeta in Hf. rewrite Hu in Hf.
+      destruct (find_edge q t (uptr q)) as [q1 r]. cbn [fst snd] in Hf.
+      destruct Hf as (H1 & H2 & H3 & H4 & H5 & H6).
+      exists q1. split; [rewrite H6; reflexivity|]. split; [|split; [exact H4|exact H5]].
+      constructor; [exact H1|rewrite H2; lia|rewrite H3, H2; exact He|rewrite H2, H5 by exact Hup; exact Hu].
+    - pose proof (il_spec q ix t l Hc ltac:(rewrite He; exact Hup)) as Hf. cbn zeta in Hf.
+      rewrite He, Hu in Hf.
+      destruct (is_less q t l) as [q1 r]. cbn [fst snd] in Hf.
+      destruct Hf as (H1 & H2 & H3 & H4 & H5 & H6).
+      exists q1. split; [rewrite H6; reflexivity|]. split; [|split; [exact H4|exact H5]].
+      constructor; [exact H1|rewrite H2; lia|rewrite H3, H2; reflexivity|rewrite H2, H5 by exact Hup; exact Hu].
+    - pose proof (il_spec q ix t l Hc ltac:(rewrite He; exact Hup)) as Hf. cbn zeta in Hf.
+      rewrite He, Hu in Hf.
+      destruct (is_less q t l) as [q1 r]. cbn [fst snd] in Hf.
+      destruct Hf as (H1 & H2 & H3 & H4 & H5 & H6).
+      exists q1. split; [rewrite H6; reflexivity|]. split; [|split; [exact H4|exact H5]].
+      constructor; [exact H1|rewrite H2; lia|rewrite H3, H2; reflexivity|rewrite H2, H5 by exact Hup; exact Hu].
+    - pose proof (il_spec q ix t (expand l) Hc ltac:(rewrite He; exact Hup)) as Hf. cbn zeta in Hf.
+      rewrite He, Hu in Hf.
+      destruct (is_less q t (expand l)) as [q1 r]. cbn [fst snd] in Hf.
+      destruct Hf as (H1 & H2 & H3 & H4 & H5 & H6).
+      exists q1. split; [rewrite H6; reflexivity|]. split; [|split; [exact H4|exact H5]].
+      constructor; [exact H1|rewrite H2; lia|rewrite H3, H2; reflexivity|rewrite H2, H5 by exact Hup; exact Hu].
+    - eexists. split; [reflexivity|]. split; [|split; [cbn; lia|cbn; auto]].
+      constructor; cbn [eq_reset eheap uptr eopts]; auto.
+      destruct Hc as [H1 H2 H3]. constructor; cbn [eq_reset eindex numEdges numLimit covering]; auto.
+      unfold cache_ok. left. lia.
+  Qed.
+
+  Lemma good_with_heap q ix u h : good q ix u -> length (eheap q) <= length h ->
+    (forall k, k < length (eheap q) -> hget dflt k h = hget dflt k (eheap q)) -> good (with_heap q h) ix u.
+  Proof.
+    intros [Hc Hup He Hu] Hl Hk. constructor; cbn [with_heap eheap uptr eopts]; auto; try lia.
+    - destruct Hc; constructor; assumption.
+    - rewrite Hk by exact Hup. exact Hu.
+  Qed.
+
+  (** Goroutine A is inside IsDistanceLess(tA, l) on its query object [qa]; goroutine B performs a
+      whole call [ob] on ITS OWN query object [qb]; both objects were built from the same options
+      value (same heap, same [uptr]). B's answer is the answer of a fresh query object with the
+      caller's options, and so is A's: no call writes state reachable from the other object. *)
+  Theorem own_query_objects_shared_options qa qb ix u tA l ob :
+    good qa ix u -> good qb ix u -> eheap qb = eheap qa -> uptr qb = uptr qa -> is_query_op ob = true ->
+    interleave_new straight expand counts threshold cover_of search dflt qa qb tA l ob
+    = Ok (fresh_answer ix u ob,
+          match hd_error (firstn 1 (search ix tA (with_max1 (threshold_opts straight u l))
+                                           (fresh_path ix tA (with_max1 (threshold_opts straight u l))))) with
+          | Some _ => true | None => false end).
+  Proof.
+    intros Ga Gb Hh Hu Hq. unfold interleave_new, is_less_begin, halloc. lazy beta iota zeta.
+    set (o0 := threshold_opts straight (hget dflt (eopts qa) (eheap qa)) l).
+    set (hA := eheap qa ++ [o0]).
+    assert (HlA : length (eheap qa) < length hA) by (unfold hA; rewrite app_length; cbn; lia).
+    assert (HkA : forall k, k < length (eheap qa) -> hget dflt k hA = hget dflt k (eheap qa))
+      by (intros k Hk; apply hget_alloc_old; exact Hk).
+    assert (Gb1 : good (with_heap qb (eheap (with_heap qa hA))) ix u).
+    { cbn [with_heap eheap]. apply good_with_heap; [exact Gb|rewrite Hh; lia|rewrite Hh; exact HkA]. }
+    destruct (qstep_no_shared_write _ ix u ob Gb1 Hq) as (qb1 & Hs & Gb2 & Hlen & Hkeep).
+    rewrite Hs. cbn [obind]. cbn [with_heap eheap] in Hlen, Hkeep.
+    unfold is_less_end.
+    set (qa2 := with_heap (with_heap qa hA) (eheap qb1)).
+    assert (Ca : core qa2 ix) by (destruct Ga as [[? ? ?] _ _ _]; constructor; assumption).
+    assert (Hp : length (eheap qa) < length (eheap qa2)) by (cbn [qa2 with_heap eheap]; lia).
+    pose proof (fe_spec qa2 ix tA (length (eheap qa)) Ca Hp) as Hf. cbn zeta in Hf.
+    destruct (find_edge qa2 tA (length (eheap qa))) as [q1 r]. cbn [fst snd] in Hf.
+    destruct Hf as (_ & _ & _ & _ & _ & H6).
+    assert (Hcell : hget dflt (length (eheap qa)) (eheap qa2) = o0).
+    { cbn [qa2 with_heap eheap]. rewrite Hkeep by exact HlA. unfold hA. apply hget_alloc_new. }
+    rewrite Hcell in H6. rewrite H6. unfold o0.
+    destruct Ga as [_ _ Hea Hua]. rewrite Hea, Hua. reflexivity.
+  Qed.
 End EdgeQueryProofs.
 
 (** ** What 784d87c repaired. A concrete instance: results are numbers, the index "contains"
@@ -370,3 +458,16 @@ Definition eq_case (straight : Z) (u0 : @opts Z) (h : list (@qop Z unit unit))
   | Ok (q, _) => zopts_eqb (hget u0 (uptr q) (eheap q)) observed && Bool.eqb (eopts q =? uptr q) alias_restored
   | _ => false
   end.
+
+(** ** C14-mut4 (seeded): IsDistanceLess overriding the shared options IN PLACE and restoring them
+    afterwards is invisible serially, but a FindEdges on ANOTHER query object built from the same
+    options value, running while the first is inside IsDistanceLess, sees the override. *)
+Definition toy_inter_new := interleave_new 1000 (fun l => l + 1) (fun _ : list nat => [5]) (fun _ : unit => 30) (fun _ => tt)
+                                           toy_search (mkOpts 0 0 0 false false).
+Definition toy_inter_inplace := interleave_inplace 1000 (fun l => l + 1) (fun _ : list nat => [5]) (fun _ : unit => 30) (fun _ => tt)
+                                           toy_search (mkOpts 0 0 0 false false).
+Theorem shared_options_inplace_refuted :
+  let q := eq_new [1; 2; 3; 4; 5] toy_u in
+  toy_inter_new q q tt 3 (QFindEdges tt) = Ok ([OutEdges [1; 2; 3; 4; 5]], true) /\
+  toy_inter_inplace q q tt 3 (QFindEdges tt) = Ok ([OutEdges [1]], true).
+Proof. vm_compute. split; reflexivity. Qed.
